@@ -16,6 +16,7 @@ static std::vector<std::vector<std::string>> PROG;
 static int N; static std::string HASH = "id";
 static long g_copies = 0, g_fail_copy = -1;
 static bool g_log_destroy = false;
+static int g_bar = 0;
 struct InjectedFault {};
 
 static size_t hashfn(int k) { if (HASH == "const") return 0; if (HASH == "low") return (size_t)(k & 1) | ((size_t)k << 16 & 0); return (size_t)k; }
@@ -39,7 +40,9 @@ template <> struct Drv<PQ> {
         catch (InjectedFault&) { r = -2; } catch (std::bad_alloc&) { r = -2; }   // the queue reports a failed element copy as bad_alloc
         TR.emit("{\"e\":\"Res\",\"t\":%d,\"r\":%d}", T, r);
     }
-    static void final(PQ& q) { std::ostringstream s; PE e; bool f = true; g_fail_copy = -1; while (q.try_pop(e)) { s << (f ? "" : ",") << e.v; f = false; } TR.emit("{\"e\":\"Final\",\"rest\":[%s]}", s.str().c_str()); }
+    // at quiescence the queue is drained by sequential pops that are part of the history (their order is checked: each must return a maximum)
+    static void final(PQ& q) { g_fail_copy = -1; for (;;) { PE e; TR.emit("{\"e\":\"Inv\",\"t\":1,\"op\":\"pop\",\"v\":0}"); int r = q.try_pop(e) ? e.v : 0; TR.emit("{\"e\":\"Res\",\"t\":1,\"r\":%d}", r); if (!r) break; }
+        TR.emit("{\"e\":\"Final\",\"rest\":[]}"); }
 };
 // ---------------------------------------------------------------- hash map
 typedef tbb::concurrent_hash_map<int, Val, HC> HM;
@@ -118,7 +121,10 @@ template <class C> static int run(int argc, char** argv, long failk) {
         TR.begin_exec(); Drv<C>::cfg(failk > 0);
         untrack_all(); g_log_destroy = false; C* c = make<C>(); g_log_destroy = true; g_copies = 0; g_fail_copy = failk;
         Sched S; S.stall_limit = 40000; S.log_schedule = true; focus_only(false);
-        S.spawn(N, [&](int t) { for (auto& op : PROG[t]) { auto f = vh::split(op, ':'); Drv<C>::op(*c, t + 1, f[0], f.size() > 1 ? atoi(f[1].c_str()) : 0); } });
+        g_bar = 0;
+        S.spawn(N, [&](int t) { for (auto& op : PROG[t]) { auto f = vh::split(op, ':');
+            if (f[0] == "bar") { __atomic_add_fetch(&g_bar, 1, __ATOMIC_SEQ_CST); while (__atomic_load_n(&g_bar, __ATOMIC_SEQ_CST) < N) cosched::yield_point(); continue; }   // harness barrier: a sequential prefix before the concurrent phase
+            Drv<C>::op(*c, t + 1, f[0], f.size() > 1 ? atoi(f[1].c_str()) : 0); } });
         int rc = S.run_random(seed0 + r, 4000000, dens[r % 8]); steps += S.steps;
         TR.sched(S.sched_log);
         if (rc != RC_OK) { ++stuck; TR.emit("{\"e\":\"Stuck\",\"rc\":\"%s\"}", rc_name(rc).c_str()); S.join_all(); continue; }
